@@ -121,9 +121,13 @@ class SymT(BaseT):
             raise PathAbort("seed violates a concrete assumption")
 
     # ---- obligations --------------------------------------------------------------------
-    def _ctx(s):
+    def _ctx(s, domain=True):
         # domain events (divisor != 0, radicand >= 0, log argument > 0) met so far are assumptions of every
         # obligation: identities are claimed where the executed operations are defined
+        if not domain:
+            # used for obligations *about* the domain of sqrt / log: the generator definitions (g^2 = p, g >= 0) would imply
+            # them, so only preconditions and the path condition are assumed
+            return list(E.pre) + list(E.pc)
         return list(E.pre) + list(E.defs) + list(E.pc) + [e for k, e, ok in E.domain]
 
     def domain_events(s, kind=None):
@@ -213,8 +217,18 @@ class SymT(BaseT):
     def _wc(s):
         return list(s.opts.get("wellcond", []))
 
-    def true(s, label, cond):
+    def true(s, label, cond, assume_domain=True):
         """cond (SymBool / bool / array of them) holds for every input on this path"""
+        _ctx0 = s._ctx
+        if not assume_domain:
+            s._ctx = lambda: _ctx0(False)
+        try:
+            return s._true(label, cond)
+        finally:
+            if not assume_domain:
+                del s._ctx
+
+    def _true(s, label, cond):
         conds = _flatten_bools(cond)
         es = []
         for c in conds:
@@ -373,7 +387,7 @@ class ConcT(BaseT):
             return s._rec(label, "violated", f"entry {i}: got {g2.ravel()[i]} expected {w2.ravel()[i]}")
         return s._rec(label, "holds-concrete")
 
-    def true(s, label, cond):
+    def true(s, label, cond, assume_domain=True):
         ok = bool(np.all(cond))
         s._rec(label, "holds-concrete" if ok else "violated")
 
